@@ -21,6 +21,11 @@ var pkcs7Facts = []*fact{factIssuer, factSerial, factSignature, factContentDiges
 func checkC04(c *Ctx) {
 	c.ruleOptionalLast("A.trailing")
 	c.R.Floor("A.trailing", 1)
+	// "over the signed attributes exactly as they appear in the blob": the verifier
+	// re-encodes what the parser kept, so the parser may drop nothing (shared with C16)
+	c.ruleAttrLossless("A.lossless")
+	c.ruleAttrPair("X3.pair")
+	c.R.Floor("A.lossless", 2)
 	c.ruleSerialValue("A.serial-value")
 	c.ruleFrozen("A.frozen")
 	c.R.Floor("A.frozen", 5)
@@ -135,6 +140,8 @@ func checkC02(c *Ctx) {
 	// the digest that is compared covers exactly the bytes being verified (shared with C01)
 	checkC01(c)
 	c.ruleOptionalLast("A.trailing")
+	c.ruleAttrLossless("A.lossless")
+	c.ruleAttrPair("X3.pair")
 	c.ruleFrozen("A.frozen")
 	c.R.Floor("A.frozen", 5)
 	e := c.accept()
